@@ -603,3 +603,155 @@ func pool3BufferSingleRelease(p *core.Prog, rep *core.Report) {
 		rep.Unk("VAC", "POOL3", "expected >= 3 functions taking byte buffers from the pool", "", fmt.Sprintf("found %d", n))
 	}
 }
+
+// pool4NoUseAfterRelease: once an object has been handed back to a pool (sync.Pool, bytebufferpool, or a library
+// helper that does so with its parameter) the releasing function does not touch it again: another goroutine may
+// already own it. `defer release(x)` is the safe idiom; turning it into a plain call at the top of the function
+// (one deleted word) releases the buffer while it is still being read into and decoded from.
+func pool4NoUseAfterRelease(p *core.Prog, rep *core.Report) {
+	rep.Rule("POOL4", "no use after release: in every library function, after a (non-deferred) call that returns a value to a pool - (*sync.Pool).Put, bytebufferpool.Put, or a library function that does so with its parameter - no instruction reachable without passing the value's definition again uses that value or a slice of it")
+	release := map[*ssa.Function]map[int]bool{}
+	for _, fn := range p.LibFuncs() {
+		for _, b := range fn.Blocks {
+			for _, in := range b.Instrs {
+				ci, ok := in.(ssa.CallInstruction)
+				if !ok {
+					continue
+				}
+				var arg ssa.Value
+				switch {
+				case core.StaticCalleeIs(ci.Common(), bbPut) && len(ci.Common().Args) > 0:
+					arg = ci.Common().Args[0]
+				case core.StaticCalleeIs(ci.Common(), poolPut) && len(ci.Common().Args) > 1:
+					arg = ci.Common().Args[1]
+				}
+				if arg == nil {
+					continue
+				}
+				if pi := paramIndex(fn, core.Unwrap(arg)); pi >= 0 {
+					if release[fn] == nil {
+						release[fn] = map[int]bool{}
+					}
+					release[fn][pi] = true
+				}
+			}
+		}
+	}
+	n := 0
+	var bad []string
+	for _, fn := range p.LibFuncs() {
+		for _, b := range fn.Blocks {
+			for idx, in := range b.Instrs {
+				c, ok := in.(*ssa.Call) // plain calls only: a deferred release runs after every use
+				if !ok {
+					continue
+				}
+				var vals []ssa.Value
+				switch {
+				case core.StaticCalleeIs(c.Common(), bbPut) && len(c.Common().Args) > 0:
+					vals = append(vals, c.Common().Args[0])
+				case core.StaticCalleeIs(c.Common(), poolPut) && len(c.Common().Args) > 1:
+					vals = append(vals, c.Common().Args[1])
+				default:
+					if rs, ok := release[c.Common().StaticCallee()]; ok {
+						for pi := range rs {
+							if pi < len(c.Common().Args) {
+								vals = append(vals, c.Common().Args[pi])
+							}
+						}
+					}
+				}
+				for _, v0 := range vals {
+					v := core.Unwrap(v0)
+					if _, isConst := v.(*ssa.Const); isConst {
+						continue
+					}
+					n++
+					// the released value and what is derived from it without copying
+					derived := map[ssa.Value]bool{v: true}
+					work := []ssa.Value{v}
+					for len(work) > 0 {
+						x := work[0]
+						work = work[1:]
+						if x.Referrers() == nil {
+							continue
+						}
+						for _, r := range *x.Referrers() {
+							switch t := r.(type) {
+							case *ssa.Slice:
+								if !derived[t] {
+									derived[t] = true
+									work = append(work, t)
+								}
+							case *ssa.MakeInterface:
+								if !derived[t] {
+									derived[t] = true
+									work = append(work, t)
+								}
+							}
+						}
+					}
+					var def *ssa.BasicBlock
+					if di, ok := v.(ssa.Instruction); ok {
+						def = di.Block()
+					}
+					// blocks reachable from the release without re-executing the definition
+					reach := map[*ssa.BasicBlock]bool{}
+					var dfs func(x *ssa.BasicBlock)
+					dfs = func(x *ssa.BasicBlock) {
+						for _, s := range x.Succs {
+							if s == def || reach[s] {
+								continue
+							}
+							reach[s] = true
+							dfs(s)
+						}
+					}
+					dfs(b)
+					use := func(u ssa.Instruction) bool {
+						if u == ssa.Instruction(c) {
+							return false
+						}
+						if _, isDbg := u.(*ssa.DebugRef); isDbg {
+							return false
+						}
+						for _, op := range u.Operands(nil) {
+							if op != nil && *op != nil && derived[*op] {
+								return true
+							}
+						}
+						return false
+					}
+					found := ""
+					for j := idx + 1; j < len(b.Instrs) && found == ""; j++ {
+						if use(b.Instrs[j]) {
+							found = p.InstrPos(b.Instrs[j])
+						}
+					}
+					for rb := range reach {
+						if found != "" {
+							break
+						}
+						for j, u := range rb.Instrs {
+							if rb == b && j <= idx {
+								continue // before the release in its own block: only reachable through the definition or a loop - handled by reach
+							}
+							if use(u) {
+								found = p.InstrPos(u)
+								break
+							}
+						}
+					}
+					if found != "" {
+						bad = append(bad, fmt.Sprintf("%s releases %s at %s and uses it afterwards at %s: the pool may already have handed it to another goroutine", core.FuncKey(fn), v.Name(), p.InstrPos(c), found))
+					}
+				}
+			}
+		}
+	}
+	if n < 1 {
+		rep.Unk("VAC", "POOL4", "expected at least one non-deferred release call", "", "found none")
+		return
+	}
+	rep.Check(len(bad) == 0, "POOL4", "no-use-after-release", fmt.Sprintf("none of the %d non-deferred releases is followed by a use of the released object", n), "", strings.Join(sortedStr(bad), "; "), true)
+}
